@@ -1,14 +1,19 @@
 //! dsim — deterministic simulation of d-engine (see /verif/DESIGN.md).
 
 #![allow(dead_code, unused_imports)]
+mod checks;
+mod clients;
 mod cluster;
+mod lin;
 mod net;
 mod node;
 mod oracle;
+mod plan;
 mod rng;
 mod seams;
 mod sm;
 mod store;
+mod world;
 
 use std::collections::HashMap;
 
